@@ -166,10 +166,35 @@ impl<'a> Exec<'a> {
         self.build(v)
     }
 
+    /// The calls under test are never the first thing the process does.  Before every replayed step a
+    /// throw-away envelope of another content goes through the common transformations and is dropped
+    /// again (all envelopes are allocations of one size: what is built next tends to land where the
+    /// decoy was).  A result must be a function of the arguments - not of what happened to live at an
+    /// address, or of what was computed earlier for something else (C02, C13: caches, memos).
+    fn decoy(&self, var: u64) {
+        static N: std::sync::atomic::AtomicU64 = std::sync::atomic::AtomicU64::new(1);
+        let n = N.fetch_add(1, std::sync::atomic::Ordering::Relaxed);
+        if n % 3 != 0 {
+            return; // one step in three: the replay stays fast
+        }
+        let d = match (n / 3 + var) % 3 {
+            0 => Envelope::new(format!("decoy-{}", n)),
+            1 => Envelope::new(n).add_assertion("decoy", n),
+            _ => Envelope::new(format!("decoy-{}", n)).wrap_envelope(),
+        };
+        let _ = d.compress();
+        let _ = d.compress_subject();
+        let _ = d.elide();
+        let _ = d.structural_digest();
+        let _ = d.tagged_cbor();
+        drop(d);
+    }
+
     fn run(&mut self, step: &Value, regs: &Regs) -> Result<Outcome, String> {
         let op = step[0].as_str().ok_or("op")?;
         let a = |i: usize| &step[i + 2]; // i-th argument (0-based)
         let var = self.variant;
+        self.decoy(var);
         Ok(match op {
             "new" => Outcome::Env(Envelope::new(simple(a(0), self.ctx)?)),
             // assembling a shape uses only calls that cannot fail on a correct library: a failure is an outcome
